@@ -287,7 +287,7 @@ def r13_1(chk):
         pv = lp.target.id
         seq = [norm(s) for s in lp.body]
         det = str(seq)
-        # counters: locals set to 0 before the loop; the body is executed symbolically: value of a counter = number of times the
+        # counters: locals set to 0 before the loop; the body is interpreted over symbolic counter terms: value of a counter = number of times the
         # panel's own 3*m*n has been added to it in this iteration (0 = the sum over the previous panels)
         counters = {}
         for st in init.body:
